@@ -47,11 +47,15 @@ def run(chk, prog):
     sk = check_loop(chk, "eval_jaxpr_incremental", r, where, const_wrap=lambda t: t == dc("no_change", P("consts")), invar_value=lambda t: t == dc("tree_diff", P("primals"), P("tangents")), dispatch_ok=guard, out_wrap=out_wrap)
     # literals / un-tagged values wrapped NoChange before use
     if sk:
-        fams = [x for x in subterms(sk["outvals"]) if is_t(x, "fam") and is_call(x[1], "safe_map")]
+        # (one comprehension over eqn.invars whose element is the value READ from the environment - fused or over the mapped read, the same term)
+        fams = [x for x in subterms(sk["outvals"]) if is_t(x, "fam") and x[1] == ("attr", ("elem", ("attr", P("jaxpr"), "eqns")), "invars")]
         okl = False
         der = "no wrapping comprehension found"
         for f in fams:
-            el = mk_elem(f[1])
+            reads_ = [y for y in subterms(f[2]) if is_mcall(y, "read") and y[2] == (("elem", f[1]),)]
+            if not reads_:
+                continue
+            el = reads_[0]
             NOC = [x for x in subterms(f[2]) if is_t(x, "global") and x[1].endswith("NoChange")]
             want = ("phi", ("isinst", el, "Diff"), el, ("ctor", "Diff", (el, NOC[0] if NOC else None), ()))
             der = show(f[2])[:200]
